@@ -228,9 +228,6 @@ Proof.
 Qed.
 
 (* ------------------------------------------------------------------ parameter framing *)
-Definition padv (v : bytes) : bytes := v ++ zeros ((- blen v) mod 4).
-Definition param_bytes (pid : Z) (v : bytes) : bytes :=
-  le_bytes 2 (wrap_u16 pid) ++ le_bytes 2 (wrap_u16 (blen v)) ++ v.
 
 Lemma blen_padv : forall v, blen (padv v) = padded_len (blen v).
 Proof.
@@ -294,7 +291,6 @@ Proof. reflexivity. Qed.
 Lemma le_val_2 : forall x, 0 <= x < 65536 -> x mod 256 + 256 * ((x / 256) mod 256 + 256 * 0) = x.
 Proof. intros. lia. Qed.
 
-Definition pid_ok (pid : Z) : Prop := -32768 <= pid <= 32767 /\ pid <> 1.
 
 Lemma pl_next_param : forall pid v rest, pid_ok pid -> blen v <= 65535 ->
   pl_next false (param_bytes pid v ++ rest) = PItem pid v rest.
@@ -373,17 +369,6 @@ Proof.
 Qed.
 
 (* ------------------------------------------------------------------ iterating over well-formed parameters *)
-Definition item_ok (it : Z * bytes) : Prop := pid_ok (fst it) /\ blen (snd it) <= 65535.
-Fixpoint params_bytes (items : list (Z * bytes)) : bytes :=
-  match items with [] => [] | it :: t => param_bytes (fst it) (snd it) ++ params_bytes t end.
-(* the values found under pid, in list order *)
-Fixpoint matches (pid : Z) (items : list (Z * bytes)) : list bytes :=
-  match items with
-  | [] => []
-  | it :: t => if fst it =? pid then snd it :: matches pid t else matches pid t
-  end.
-Fixpoint mapM {A B} (f : A -> res B) (l : list A) : res (list B) :=
-  match l with [] => Ok [] | a :: t => b <- f a ;; r <- mapM f t ;; Ok (b :: r) end.
 
 Lemma params_bytes_app : forall a b, params_bytes (a ++ b) = params_bytes a ++ params_bytes b.
 Proof. induction a as [|it a IH]; intros; cbn [params_bytes app]; [reflexivity|]. rewrite IH, app_assoc. reflexivity. Qed.
@@ -420,9 +405,6 @@ Lemma pl_all_sentinel : forall {A} pid (dec : bytes -> res A) junk, pl_all false
 Proof. intros. rewrite pl_all_step, pl_next_sentinel. reflexivity. Qed.
 
 (* ------------------------------------------------------------------ into_bytes as a list of parameters *)
-Definition periodic (w : wr) : Prop := forall pos, pos mod 4 = 0 -> w pos = w 0.
-Definition items_of {R} (wt : list (wrow R)) (r : R) : list (Z * bytes) :=
-  flat_map (fun row => map (fun v : wr => (w_pid row, padv (v 0))) (w_emit row r)) wt.
 
 Lemma write_vals_eq : forall pid (vs : list wr) buf,
   (forall v, In v vs -> periodic v) -> blen buf mod 4 = 0 ->
@@ -463,4 +445,370 @@ Proof.
   { unfold wseq. rewrite (w_u16_aligned 1) by lia. rewrite w_u16_aligned; [reflexivity|].
     change (blen (le_bytes 2 1)) with 2. lia. }
   rewrite S, E. cbn [params_bytes fst snd]. rewrite <- pl_header_is_param. reflexivity.
+Qed.
+
+(* ------------------------------------------------------------------ what a table emits under one pid *)
+
+Lemma matches_map_same : forall pid (vs : list wr),
+  matches pid (map (fun v : wr => (pid, padv (v 0))) vs) = map (fun v : wr => padv (v 0)) vs.
+Proof. induction vs as [|v vs IH]; cbn [map matches fst snd]; [reflexivity|]. rewrite Z.eqb_refl, IH. reflexivity. Qed.
+Lemma matches_map_other : forall pid p (vs : list wr), p <> pid ->
+  matches pid (map (fun v : wr => (p, padv (v 0))) vs) = [].
+Proof.
+  intros pid p vs H. induction vs as [|v vs IH]; cbn [map matches fst snd]; [reflexivity|].
+  replace (p =? pid) with false by (symmetry; apply Z.eqb_neq; assumption). exact IH.
+Qed.
+Lemma matches_items_absent : forall {R} (wt : list (wrow R)) (r : R) pid,
+  ~ In pid (map w_pid wt) -> matches pid (items_of wt r) = [].
+Proof.
+  intros R wt r pid. unfold items_of. induction wt as [|row wt IH]; intros H; cbn [flat_map]; [reflexivity|].
+  rewrite matches_app, matches_map_other, IH; [reflexivity| |].
+  - intros C; apply H; right; exact C.
+  - intros C; apply H; left; exact C.
+Qed.
+Lemma matches_items_of : forall {R} (wt : list (wrow R)) (r : R) pid,
+  NoDup (map w_pid wt) -> matches pid (items_of wt r) = emitted wt r pid.
+Proof.
+  intros R wt r pid. unfold items_of, emitted.
+  induction wt as [|row wt IH]; intros H; cbn [flat_map find map]; [reflexivity|].
+  inversion H as [|x l Hni Hnd]; subst. rewrite matches_app.
+  destruct (w_pid row =? pid) eqn:E.
+  - apply Z.eqb_eq in E. subst pid. rewrite matches_map_same.
+    fold (items_of wt r). rewrite (matches_items_absent wt r (w_pid row) Hni), app_nil_r. reflexivity.
+  - apply Z.eqb_neq in E. rewrite (matches_map_other pid (w_pid row) _ E). cbn [app]. apply IH; assumption.
+Qed.
+
+Lemma tbl_fits_items : forall {R} (wt : list (wrow R)) (r : R),
+  Forall (fun row => pid_ok (w_pid row)) wt -> tbl_fits wt r -> Forall item_ok (items_of wt r).
+Proof.
+  intros R wt r. unfold tbl_fits, tbl_fitsb, items_of.
+  induction wt as [|row wt IH]; intros Hp Hf; cbn [flat_map]; [constructor|].
+  inversion Hp; subst. cbn [forallb] in Hf. apply andb_prop in Hf. destruct Hf as [Hf1 Hf2].
+  apply Forall_app. split; [|apply IH; assumption].
+  apply Forall_forall. intros it Hit. apply in_map_iff in Hit. destruct Hit as [v [Ev Hv]]. subst it.
+  split; [assumption|]. cbn [snd]. rewrite blen_padv.
+  rewrite forallb_forall in Hf1. apply Z.leb_le. apply Hf1. assumption.
+Qed.
+
+Lemma pl_hdr_into_bytes : forall items tail, pl_hdr (params_bytes ((768, []) :: items) ++ tail) = (0, 3).
+Proof. reflexivity. Qed.
+
+Lemma bind_ok_r : forall {A} (x : res A), (a <- x ;; Ok a) = x.
+Proof. destruct x; reflexivity. Qed.
+
+Theorem seek_into_bytes : forall {R} (wt : list (wrow R)) (r : R) pid,
+  table_ok wt r -> pid <> 768 ->
+  seek_to_pid (tbl_into_bytes wt r) pid = Ok (hd_error (emitted wt r pid)).
+Proof.
+  intros R wt r pid [Hnd Hp Hper Hf] H768. unfold seek_to_pid.
+  rewrite (tbl_into_bytes_eq wt r Hper), pl_hdr_into_bytes. cbn [hdr_endianness snd Z.eqb Pos.eqb bind].
+  rewrite pl_seek_items.
+  2:{ constructor; [unfold item_ok, pid_ok; cbn [fst snd]; rewrite blen_nil; lia|apply tbl_fits_items; assumption]. }
+  cbn [matches fst snd]. replace (768 =? pid) with false by (symmetry; apply Z.eqb_neq; lia).
+  rewrite (matches_items_of wt r pid Hnd).
+  destruct (emitted wt r pid); [|reflexivity].
+  change [1; 0; 0; 0] with ([1; 0; 0; 0] ++ []). apply pl_seek_sentinel.
+Qed.
+
+Theorem get_list_into_bytes : forall {R A} (wt : list (wrow R)) (r : R) pid (dec : bool -> rdr A),
+  table_ok wt r -> pid <> 768 ->
+  get_list dec (tbl_into_bytes wt r) pid = mapM (fun v => run (dec false) v) (emitted wt r pid).
+Proof.
+  intros R A wt r pid dec [Hnd Hp Hper Hf] H768. unfold get_list.
+  rewrite (tbl_into_bytes_eq wt r Hper), pl_hdr_into_bytes. cbn [hdr_endianness snd Z.eqb Pos.eqb bind].
+  rewrite pl_all_items.
+  2:{ constructor; [unfold item_ok, pid_ok; cbn [fst snd]; rewrite blen_nil; lia|apply tbl_fits_items; assumption]. }
+  cbn [matches fst snd]. replace (768 =? pid) with false by (symmetry; apply Z.eqb_neq; lia).
+  rewrite (matches_items_of wt r pid Hnd).
+  change [1; 0; 0; 0] with ([1; 0; 0; 0] ++ []). rewrite pl_all_sentinel.
+  destruct (mapM (fun v => run (dec false) v) (emitted wt r pid)); cbn [bind]; try reflexivity.
+  rewrite app_nil_r. reflexivity.
+Qed.
+
+Lemma pl_new_into_bytes : forall {R} (wt : list (wrow R)) (r : R),
+  (forall row v, In row wt -> In v (w_emit row r) -> periodic v) -> pl_new (tbl_into_bytes wt r) = Ok tt.
+Proof.
+  intros. unfold pl_new. rewrite tbl_into_bytes_eq by assumption. cbn [params_bytes fst snd].
+  rewrite <- app_assoc, blen_app. change (blen (param_bytes 768 [])) with 4.
+  replace (4 + blen (params_bytes (items_of wt r) ++ [1; 0; 0; 0]) <? 4) with false; [reflexivity|].
+  symmetry. apply Z.ltb_ge. pose proof (blen_nonneg (params_bytes (items_of wt r) ++ [1; 0; 0; 0])). lia.
+Qed.
+
+(* ------------------------------------------------------------------ the generic round trip *)
+
+Lemma run_reader_into_bytes : forall {R A} (wt : list (wrow R)) (r : R) pid (rd : reader A) a,
+  table_ok wt r -> pid <> 768 -> reader_ok (emitted wt r pid) rd a ->
+  run_reader pid rd (tbl_into_bytes wt r) = Ok a.
+Proof.
+  intros R A wt r pid rd a Hok H768 Hr. destruct rd as [k|X dec k]; cbn [run_reader reader_ok] in *.
+  - rewrite (seek_into_bytes wt r pid Hok H768).
+    rewrite (tbl_into_bytes_eq wt r (tk_periodic _ _ Hok)), pl_hdr_into_bytes. exact Hr.
+  - destruct Hr as [l [E1 E2]]. rewrite (get_list_into_bytes wt r pid dec Hok H768), E1. cbn [bind]. rewrite E2. reflexivity.
+Qed.
+
+Lemma read_rows_into_bytes : forall {R} (wt : list (wrow R)) (r : R) (rt : list rrow) (t : tuple_of rt),
+  table_ok wt r -> rows_read_back wt r rt t -> read_rows rt (tbl_into_bytes wt r) = Ok t.
+Proof.
+  intros R wt r rt. induction rt as [|row rt IH]; intros t Hok Hr; cbn [read_rows rows_read_back tuple_of] in *.
+  - destruct t. reflexivity.
+  - destruct t as [a t']. cbn [fst snd] in Hr. destruct Hr as [H768 [Ha Ht]].
+    rewrite (run_reader_into_bytes wt r _ _ a Hok H768 Ha). cbn [bind].
+    rewrite (IH t' Hok Ht). reflexivity.
+Qed.
+
+(* pl_roundtrip: for ANY pair of tables - distinct, valid pids on the write side, values that
+   are position independent modulo 4 and fit 65535 bytes once padded, and readers that give
+   the field back from the values emitted under their pid - decoding the encoding of r
+   yields the record built from the fields of r. *)
+Theorem pl_roundtrip : forall {R} (wt : list (wrow R)) (rt : list rrow) (build : tuple_of rt -> R)
+                              (r : R) (t : tuple_of rt),
+  table_ok wt r -> rows_read_back wt r rt t ->
+  tbl_from_bytes rt build (tbl_into_bytes wt r) = Ok (build t).
+Proof.
+  intros R wt rt build r t Hok Hr. unfold tbl_from_bytes.
+  rewrite (pl_new_into_bytes wt r (tk_periodic _ _ Hok)). cbn [bind].
+  rewrite (read_rows_into_bytes wt r rt t Hok Hr). reflexivity.
+Qed.
+
+(* ------------------------------------------------------------------ unknown parameters are ignored *)
+Lemma matches_snoc_other : forall pid ps u, fst u <> pid -> matches pid (ps ++ [u]) = matches pid ps.
+Proof.
+  intros. rewrite matches_app. cbn [matches].
+  replace (fst u =? pid) with false by (symmetry; apply Z.eqb_neq; assumption). apply app_nil_r.
+Qed.
+Lemma nth_params_bytes_app : forall ps u tail i, ps <> [] -> (i < 4)%nat ->
+  nth i (params_bytes (ps ++ u) ++ tail) 0 = nth i (params_bytes ps ++ tail) 0.
+Proof.
+  intros ps u tail i Hne Hi. destruct ps as [|it ps]; [contradiction|].
+  cbn [app params_bytes]. unfold param_bytes. rewrite !le_bytes_2. cbn [app].
+  destruct i as [|[|[|[|i]]]]; try reflexivity. lia.
+Qed.
+
+Lemma run_reader_unknown : forall {A} pid (rd : reader A) ps u tail,
+  ps <> [] -> Forall item_ok ps -> item_ok u -> fst u <> pid ->
+  hdr_endianness (pl_hdr (params_bytes ps ++ tail)) = Ok false ->
+  run_reader pid rd (params_bytes (ps ++ [u]) ++ tail) = run_reader pid rd (params_bytes ps ++ tail).
+Proof.
+  intros A pid rd ps u tail Hne Hps Hu Hpid Hle.
+  assert (Hh : pl_hdr (params_bytes (ps ++ [u]) ++ tail) = pl_hdr (params_bytes ps ++ tail)).
+  { unfold pl_hdr. rewrite !nth_params_bytes_app by (try assumption; lia). reflexivity. }
+  assert (Hall : Forall item_ok (ps ++ [u])) by (apply Forall_app; split; [assumption|constructor; [assumption|constructor]]).
+  assert (Es : seek_to_pid (params_bytes (ps ++ [u]) ++ tail) pid = seek_to_pid (params_bytes ps ++ tail) pid).
+  { unfold seek_to_pid. rewrite Hh, Hle. cbn [bind].
+    rewrite (pl_seek_items pid (ps ++ [u]) tail Hall), (pl_seek_items pid ps tail Hps).
+    rewrite (matches_snoc_other pid ps u Hpid). reflexivity. }
+  destruct rd as [k|X dec k]; cbn [run_reader].
+  - rewrite Es, Hh. reflexivity.
+  - unfold get_list. rewrite Hh, Hle. cbn [bind].
+    rewrite (pl_all_items pid _ (ps ++ [u]) tail Hall), (pl_all_items pid _ ps tail Hps).
+    rewrite (matches_snoc_other pid ps u Hpid). reflexivity.
+Qed.
+
+(* unknown_pids_ignored: in a received little-endian list, a parameter whose pid is read by no
+   row of the table (unassigned, vendor specific >= 0x8000 i.e. negative as i16, PID_PAD, ...)
+   can be inserted after ANY prefix of well-formed parameters - hence anywhere before the
+   sentinel - without changing the result of from_bytes, whatever follows. *)
+Theorem unknown_pids_ignored : forall {R} (rt : list rrow) (build : tuple_of rt -> R) ps u tail,
+  ps <> [] -> Forall item_ok ps -> item_ok u ->
+  (forall row, In row rt -> r_pid row <> fst u) ->
+  hdr_endianness (pl_hdr (params_bytes ps ++ tail)) = Ok false ->
+  tbl_from_bytes rt build (params_bytes (ps ++ [u]) ++ tail)
+  = tbl_from_bytes rt build (params_bytes ps ++ tail).
+Proof.
+  intros R rt build ps u tail Hne Hps Hu Hrows Hle. unfold tbl_from_bytes.
+  assert (Hge : forall q, q <> [] -> pl_new (params_bytes q ++ tail) = Ok tt).
+  { intros q Hq. destruct q as [|it q]; [contradiction|]. unfold pl_new. cbn [params_bytes].
+    rewrite <- app_assoc, blen_app, blen_param_bytes.
+    pose proof (blen_nonneg (snd it)). pose proof (blen_nonneg (params_bytes q ++ tail)).
+    replace (4 + blen (snd it) + blen (params_bytes q ++ tail) <? 4) with false by (symmetry; apply Z.ltb_ge; lia).
+    reflexivity. }
+  assert (Hn : pl_new (params_bytes (ps ++ [u]) ++ tail) = pl_new (params_bytes ps ++ tail)).
+  { rewrite (Hge ps Hne). apply Hge. destruct ps; [contradiction|discriminate]. }
+  rewrite Hn. destruct (pl_new (params_bytes ps ++ tail)); cbn [bind]; try reflexivity.
+  assert (Er : read_rows rt (params_bytes (ps ++ [u]) ++ tail) = read_rows rt (params_bytes ps ++ tail)).
+  { clear build Hn. induction rt as [|row rt IH]; cbn [read_rows]; [reflexivity|].
+    rewrite (run_reader_unknown (r_pid row) (r_reader row) ps u tail Hne Hps Hu) by
+      (try assumption; intros C; apply (Hrows row (or_introl eq_refl)); symmetry; exact C).
+    rewrite IH by (intros row' Hr; apply Hrows; right; exact Hr). reflexivity. }
+  rewrite Er. reflexivity.
+Qed.
+
+(* ------------------------------------------------------------------ totality (no panic) *)
+Definition rdr_total {A} (m : rdr A) : Prop := forall s p, m s <> Panic p.
+Definition res_total {A} (r : res A) : Prop := forall p, r <> Panic p.
+
+Lemma total_ret : forall {A} (a : A), rdr_total (rret a).
+Proof. intros A a s p. discriminate. Qed.
+Lemma total_fail : forall {A} e, rdr_total (@rfail A e).
+Proof. intros A e s p. discriminate. Qed.
+Lemma total_bind : forall {A B} (m : rdr A) (k : A -> rdr B),
+  rdr_total m -> (forall a, rdr_total (k a)) -> rdr_total (rbind m k).
+Proof.
+  intros A B m k Hm Hk s p. unfold rbind. destruct (m s) as [[a s']|e|q] eqn:E.
+  - apply Hk. - discriminate. - exfalso. exact (Hm s q E).
+Qed.
+Lemma total_bytes : forall ned n, rdr_total (r_bytes ned n).
+Proof. intros ned n [pos rest] p. unfold r_bytes. destruct (shorter rest n); discriminate. Qed.
+Lemma total_align : forall ned a, rdr_total (r_align ned a).
+Proof. intros ned a [pos rest] p. unfold r_align. destruct (shorter rest ((- pos) mod a)); discriminate. Qed.
+Lemma total_u8 : forall ned, rdr_total (r_u8 ned).
+Proof. intros ned [pos [|b t]] p; discriminate. Qed.
+Lemma total_uint : forall ned be n, rdr_total (r_uint ned be n).
+Proof.
+  intros. unfold r_uint. apply total_bind; [apply total_align|]. intros _.
+  apply total_bind; [apply total_bytes|]. intros. apply total_ret.
+Qed.
+Lemma total_u16 : forall ned be, rdr_total (r_u16 ned be). Proof. intros; apply total_uint. Qed.
+Lemma total_u32 : forall ned be, rdr_total (r_u32 ned be). Proof. intros; apply total_uint. Qed.
+Lemma total_i16 : forall ned be, rdr_total (r_i16 ned be).
+Proof. intros. unfold r_i16. apply total_bind; [apply total_uint|]. intros; apply total_ret. Qed.
+Lemma total_i32 : forall ned be, rdr_total (r_i32 ned be).
+Proof. intros. unfold r_i32. apply total_bind; [apply total_uint|]. intros; apply total_ret. Qed.
+Lemma total_xbool : rdr_total x_r_bool.
+Proof.
+  unfold x_r_bool. apply total_bind; [apply total_u8|]. intros b.
+  destruct (b =? 0); [apply total_ret|]. destruct (b =? 1); [apply total_ret|apply total_fail].
+Qed.
+Lemma total_cbool : rdr_total cdr_r_bool.
+Proof. unfold cdr_r_bool. apply total_bind; [apply total_u8|]. intros; apply total_ret. Qed.
+Lemma total_xstring : forall be, rdr_total (x_r_string be).
+Proof.
+  intros. unfold x_r_string. apply total_bind; [apply total_u32|]. intros len.
+  apply total_bind; [apply total_bytes|]. intros s.
+  apply total_bind; [apply total_u8|]. intros _.
+  destruct (utf8_valid s); [apply total_ret|apply total_fail].
+Qed.
+Lemma total_seq_f : forall {A} (elem : rdr A) fuel count, rdr_total elem -> rdr_total (r_seq_f fuel elem count).
+Proof.
+  intros A elem fuel. induction fuel as [|f IH]; intros count He s p; cbn [r_seq_f].
+  - destruct (count <=? 0); discriminate.
+  - destruct (count <=? 0); [discriminate|].
+    destruct (elem s) as [[a s']|e|q] eqn:E; [|discriminate|exfalso; exact (He s q E)].
+    destruct (r_seq_f f elem (count - 1) s') as [[l s'']|e|q] eqn:E2; [discriminate|discriminate|].
+    exfalso. exact (IH (count - 1) He s' q E2).
+Qed.
+Lemma total_seq : forall {A} (elem : rdr A) count, rdr_total elem -> rdr_total (r_seq elem count).
+Proof. intros A elem count He s p. unfold r_seq. apply total_seq_f. assumption. Qed.
+Lemma total_run : forall {A} (m : rdr A) v, rdr_total m -> res_total (run m v).
+Proof. intros A m v H p. unfold run. destruct (m (0, v)) as [[a s]|e|q] eqn:E; [discriminate|discriminate|]. exfalso. exact (H _ q E). Qed.
+
+Lemma total_pl_seek_f : forall fuel be pid d, res_total (pl_seek_f fuel be pid d).
+Proof.
+  induction fuel as [|f IH]; intros be pid d p; cbn [pl_seek_f]; [discriminate|].
+  destruct (pl_next be d) as [| |q v rest]; try discriminate.
+  destruct (q =? pid); [discriminate|apply IH].
+Qed.
+Lemma total_seek_to_pid : forall d pid, res_total (seek_to_pid d pid).
+Proof.
+  intros d pid p. unfold seek_to_pid. destruct (hdr_endianness (pl_hdr d)) as [be|e|q] eqn:E; cbn [bind].
+  - apply total_pl_seek_f. - discriminate.
+  - unfold hdr_endianness in E. destruct (snd (pl_hdr d) =? 2); [discriminate|]. destruct (snd (pl_hdr d) =? 3); discriminate.
+Qed.
+Lemma total_hdr_endianness : forall h, res_total (hdr_endianness h).
+Proof. intros h p. unfold hdr_endianness. destruct (snd h =? 2); [discriminate|]. destruct (snd h =? 3); discriminate. Qed.
+Lemma total_pl_all_f : forall {A} fuel be pid (dec : bytes -> res A) d,
+  (forall v, res_total (dec v)) -> res_total (pl_all_f fuel be pid dec d).
+Proof.
+  intros A fuel. induction fuel as [|f IH]; intros be pid dec d Hd p; cbn [pl_all_f]; [discriminate|].
+  destruct (pl_next be d) as [| |q v rest]; try discriminate.
+  destruct (q =? pid); [|apply IH; assumption].
+  destruct (dec v) as [a|e|q'] eqn:E; cbn [bind]; [|discriminate|exfalso; exact (Hd v q' E)].
+  destruct (pl_all_f f be pid dec rest) as [l|e|q'] eqn:E2; cbn [bind]; [discriminate|discriminate|].
+  exfalso. exact (IH be pid dec rest Hd q' E2).
+Qed.
+
+(* a reader that cannot panic, whatever the parameter list *)
+Definition seek_k_total {A} (k : seek_k A) : Prop := forall h sr, res_total sr -> res_total (k h sr).
+Definition reader_total {A} (rd : reader A) : Prop :=
+  match rd with
+  | RSeek k => seek_k_total k
+  | RList X dec k => forall be, rdr_total (dec be)
+  end.
+Definition xdec_total {A} (d : xdec A) : Prop := forall be v, res_total (d be v).
+
+Lemma total_run_reader : forall {A} pid (rd : reader A) d, reader_total rd -> res_total (run_reader pid rd d).
+Proof.
+  intros A pid rd d H p. destruct rd as [k|X dec k]; cbn [run_reader reader_total] in *.
+  - apply H. apply total_seek_to_pid.
+  - unfold get_list. destruct (hdr_endianness (pl_hdr d)) as [be|e|q] eqn:E; cbn [bind].
+    + destruct (pl_all be pid (fun v => run (dec be) v) d) as [l|e|q] eqn:E2; cbn [bind]; [discriminate|discriminate|].
+      exfalso. unfold pl_all in E2. revert E2. apply total_pl_all_f. intros v. apply total_run. apply H.
+    + discriminate.
+    + exfalso. exact (total_hdr_endianness _ q E).
+Qed.
+
+Lemma total_k_optional : forall {A} (dec : bool -> rdr A) d, (forall be, rdr_total (dec be)) -> seek_k_total (k_optional dec d).
+Proof.
+  intros A dec d H h sr Hsr p. unfold k_optional. destruct sr as [[v|]|e|q]; cbn [bind]; try discriminate.
+  - destruct (hdr_endianness h) as [be|e|q] eqn:E; cbn [bind]; [apply total_run, H|discriminate|exfalso; exact (total_hdr_endianness _ q E)].
+  - exfalso. exact (Hsr q eq_refl).
+Qed.
+Lemma total_k_non_optional : forall {A} (dec : bool -> rdr A), (forall be, rdr_total (dec be)) -> seek_k_total (k_non_optional dec).
+Proof.
+  intros A dec H h sr Hsr p. unfold k_non_optional. destruct sr as [[v|]|e|q]; cbn [bind]; try discriminate.
+  - destruct (hdr_endianness h) as [be|e|q] eqn:E; cbn [bind]; [apply total_run, H|discriminate|exfalso; exact (total_hdr_endianness _ q E)].
+  - exfalso. exact (Hsr q eq_refl).
+Qed.
+Lemma total_k_ok : forall {A} (k : seek_k A), seek_k_total k -> seek_k_total (k_ok k).
+Proof.
+  intros A k H h sr Hsr p. unfold k_ok. destruct (k h sr) as [a|e|q] eqn:E; [discriminate|discriminate|].
+  exfalso. exact (H h sr Hsr q E).
+Qed.
+Lemma total_x_rep : forall h, res_total (x_rep h).
+Proof. intros h p. unfold x_rep. destruct (fst h =? 0); [|discriminate]. destruct (snd h =? 2); [discriminate|]. destruct (snd h =? 3); discriminate. Qed.
+Lemma total_x2_rep : forall h, res_total (x2_rep h).
+Proof. intros h p. unfold x2_rep. destruct (fst h =? 0); [|discriminate]. destruct (snd h =? 2); [discriminate|]. destruct (snd h =? 3); discriminate. Qed.
+Lemma total_k_optional_x : forall {A} (dec : xdec A) d, xdec_total dec -> seek_k_total (k_optional_x dec d).
+Proof.
+  intros A dec d H h sr Hsr p. unfold k_optional_x. destruct sr as [[v|]|e|q]; cbn [bind]; try discriminate.
+  - destruct (x_rep h) as [be|e|q] eqn:E; cbn [bind]; [|discriminate|exfalso; exact (total_x_rep _ q E)].
+    destruct (dec be v) as [s|e|q] eqn:E2; cbn [bind]; [discriminate|discriminate|exfalso; exact (H be v q E2)].
+  - exfalso. exact (Hsr q eq_refl).
+Qed.
+Lemma total_k_non_optional_x : forall {A} (dec : xdec A), xdec_total dec -> seek_k_total (k_non_optional_x dec).
+Proof.
+  intros A dec H h sr Hsr p. unfold k_non_optional_x. destruct sr as [[v|]|e|q]; cbn [bind]; try discriminate.
+  - destruct (x_rep h) as [be|e|q] eqn:E; cbn [bind]; [|discriminate|exfalso; exact (total_x_rep _ q E)].
+    destruct (dec be v) as [[a|]|e|q] eqn:E2; cbn [bind]; [discriminate|discriminate|discriminate|exfalso; exact (H be v q E2)].
+  - exfalso. exact (Hsr q eq_refl).
+Qed.
+Lemma total_k_optional_x2 : forall {A} (dec : xdec A), xdec_total dec -> seek_k_total (k_optional_x2 dec).
+Proof.
+  intros A dec H h sr Hsr p. unfold k_optional_x2. destruct sr as [[v|]|e|q]; cbn [bind]; try discriminate.
+  - destruct (x2_rep h) as [be|e|q] eqn:E; cbn [bind]; [apply H|discriminate|exfalso; exact (total_x2_rep _ q E)].
+  - exfalso. exact (Hsr q eq_refl).
+Qed.
+Lemma total_k_unwrap_or_none : forall {A} (k : seek_k (option A)), seek_k_total k -> seek_k_total (k_unwrap_or_none k).
+Proof.
+  intros A k H h sr Hsr p. unfold k_unwrap_or_none. destruct (k h sr) as [a|e|q] eqn:E; [discriminate|discriminate|].
+  exfalso. exact (H h sr Hsr q E).
+Qed.
+
+(* a panic of from_bytes is the panic of one of its rows *)
+Lemma read_rows_panic : forall rt d p, read_rows rt d = Panic p ->
+  Exists (fun row => run_reader (r_pid row) (r_reader row) d = Panic p) rt.
+Proof.
+  induction rt as [|row rt IH]; intros d p H; cbn [read_rows] in H; [discriminate|].
+  destruct (run_reader (r_pid row) (r_reader row) d) as [a|e|q] eqn:E; cbn [bind] in H.
+  - destruct (read_rows rt d) as [l|e|q] eqn:E2; cbn [bind] in H; try discriminate.
+    apply Exists_cons_tl. apply IH. rewrite E2. inversion H. reflexivity.
+  - discriminate.
+  - apply Exists_cons_hd. inversion H. subst. exact E.
+Qed.
+Lemma tbl_from_bytes_panic : forall {R} rt (build : tuple_of rt -> R) d p,
+  tbl_from_bytes rt build d = Panic p ->
+  Exists (fun row => run_reader (r_pid row) (r_reader row) d = Panic p) rt.
+Proof.
+  intros R rt build d p H. unfold tbl_from_bytes in H.
+  destruct (pl_new d) as [u|e|q] eqn:E; cbn [bind] in H; [|discriminate|].
+  - destruct (read_rows rt d) as [t|e|q] eqn:E2; cbn [bind] in H; try discriminate.
+    apply read_rows_panic. rewrite E2. inversion H. reflexivity.
+  - unfold pl_new in E. destruct (blen d <? 4); discriminate.
+Qed.
+Theorem tbl_from_bytes_total : forall {R} rt (build : tuple_of rt -> R),
+  Forall (fun row => reader_total (r_reader row)) rt -> forall d p, tbl_from_bytes rt build d <> Panic p.
+Proof.
+  intros R rt build H d p C. apply tbl_from_bytes_panic in C. apply Exists_exists in C.
+  destruct C as [row [Hin Hp]]. rewrite Forall_forall in H.
+  exact (total_run_reader (r_pid row) (r_reader row) d (H row Hin) p Hp).
 Qed.
